@@ -44,6 +44,11 @@ add("C12", "exploration",
     "content-addressed discipline; object liveness observed through weakrefs after gc.collect() in CPython",
     "runtime monitoring: lock-step differential monitor (wrapped vs bare store) + weakref liveness bound", "E4-store")
 
+add("C19", "exploration",
+    "Monitor over a directory-backed fake of dbutils.fs: for every documented commit type (three spellings each, plus default) sequences of keeps/re-keeps of 10 value types are followed by inspection of the backing tree (byte-identical copy + redirect record for full, record only for links_only, nothing for none) and loads of every kept path; legacy codec references are injected into .meta files and read back by a new store. Held on the runs observed.",
+    "the fake dbutils is the trusted stand-in for DBFS (head/put/cp/rm semantics); Spark frames not covered",
+    "runtime monitoring: file-effect monitor over a fake dbutils + value oracle", "E4-store")
+
 NOT_YET = {}
 
 
